@@ -3,13 +3,13 @@
 `DT_REGEX`, `TIME_REGEX`, and `ofxtools.utils.gmt_offset`.
 
 The two regexes are modelled as hand-written scanners.  Facts of Python's `re` that matter here:
-* `$` (no MULTILINE) matches at the end and before a final `\n`; nothing in either pattern can consume a
-  `\n` (`.` excludes it), so a match exists iff the text with *one* final `\n` removed matches exactly;
-* `[0-9]` is ASCII only, `\d` (in a `str` pattern) is every Unicode decimal digit (category Nd);
+* the patterns are anchored by `^` … `\Z`: the whole text must match (no final line feed is tolerated);
+* `[0-9]` is ASCII only (no `\d` is left in the patterns);
 * `(?P<gmt_offset_hours>[0-9-+]+)` is greedy and backtracks: longest run first, then shorter ones; for each
-  length the continuations are tried in the order  minutes+name, minutes, name, nothing;
-* `.` before the minutes is *any* character except `\n`;  `(:(?P<tz_name>.*))?` takes everything up to the
-  last `]` (the one followed by the end of the text).
+  length the continuations are tried in the order  minutes+name, minutes, name, nothing.  (Since the minutes now
+  start with a literal `.`, no shorter run can ever succeed — `hoursScan_inv`/`hoursScan_run` make that precise —
+  but the scanner keeps the engine's order.)
+* `(:(?P<tz_name>.*))?\]` takes everything up to the last `]`; `.` does not match `\n`.
 -/
 import OfxModel.Ofx.Value
 import OfxModel.Py.Cal
@@ -22,23 +22,6 @@ open Ofx Ofx.Cal
 
 /-- `[0-9]` -/
 def isAsciiDigit (c : Char) : Bool := '0' ≤ c && c ≤ '9'
-
-/-- code points of the zero of every Unicode decimal-digit block known to the running interpreter
-    (each block is ten consecutive code points 0..9); compared with `re`/`unicodedata` over all code
-    points on every run by the correspondence (`dt.ndzeros`). -/
-def ndZeros : List Nat :=
-  [48, 1632, 1776, 1984, 2406, 2534, 2662, 2790, 2918, 3046, 3174, 3302, 3430, 3558, 3664, 3792, 3872,
-   4160, 4240, 6112, 6160, 6470, 6608, 6784, 6800, 6992, 7088, 7232, 7248, 42528, 43216, 43264, 43472,
-   43504, 43600, 44016, 65296, 66720, 68912, 69734, 69872, 69942, 70096, 70384, 70736, 70864, 71248,
-   71360, 71472, 71904, 72016, 72784, 73040, 73120, 73552, 92768, 92864, 93008, 120782, 120792, 120802,
-   120812, 120822, 123200, 123632, 124144, 125264, 130032]
-
-/-- value of a character matched by `\d` (what `int()` makes of it) -/
-def uDigitVal (c : Char) : Option Nat :=
-  (ndZeros.find? (fun z => z ≤ c.toNat && c.toNat < z + 10)).map (fun z => c.toNat - z)
-
-/-- `\d` -/
-def isUDigit (c : Char) : Bool := (uDigitVal c).isSome
 
 /-- `[0-9-+]` -/
 def isHoursChar (c : Char) : Bool := isAsciiDigit c || c == '-' || c == '+'
@@ -83,12 +66,6 @@ structure Groups where
   name : Option Str := none
   deriving Repr, DecidableEq, Inhabited
 
-/-- remove one final `\n` (see header: the `$` rule) -/
-def stripFinalNewline (s : Str) : Str :=
-  match s.reverse with
-  | '\n' :: r => r.reverse
-  | _ => s
-
 /-- `.*` followed by `\]` and the end: the text after `:` must be `name ++ "]"` with no `\n` in `name` -/
 def splitName (t : Str) : Option Str :=
   match t.reverse with
@@ -104,23 +81,19 @@ def nameTail (r : Str) : Option (Option Str) :=
   | some x => some x
   | none => if r = [']'] then some none else none
 
-/-- after the hours text `h`: `((.(?P<gmt_offset_minutes>\d\d))?(:(?P<tz_name>.*))?)? \]` then the end;
+/-- `[0-5][0-9]` -/
+def min2Ok (d1 d2 : Char) : Bool := ('0' ≤ d1 && d1 ≤ '5') && isAsciiDigit d2
+
+/-- after the hours text `h`: `((\.(?P<gmt_offset_minutes>[0-5][0-9]))?(:(?P<tz_name>.*))?)? \]` then the end;
     returns (hours, minutes, name) -/
 def offTail (h : Str) (rest : Str) : Option (Str × Option Str × Option Str) :=
   let viaMin : Option (Str × Option Str × Option Str) := match rest with
-    | c :: d1 :: d2 :: r =>
-      if c != '\n' && isUDigit d1 && isUDigit d2 then (nameTail r).map (fun n => (h, some [d1, d2], n))
-      else none
+    | '.' :: d1 :: d2 :: r =>
+      if min2Ok d1 d2 then (nameTail r).map (fun n => (h, some [d1, d2], n)) else none
     | _ => none
   match viaMin with
   | some x => some x
   | none => (nameTail rest).map (fun n => (h, none, n))
-
-/-- a zone name whose first two characters are decimal digits: after an offset without minutes the pattern
-    takes the `:` for the "any character" before the minutes and those digits for the minutes -/
-def nameLooksLikeMinutes : Str → Bool
-  | a :: b :: _ => isUDigit a && isUDigit b
-  | _ => false
 
 /-- `(?P<gmt_offset_hours>[0-9-+]+)` and what follows: lengths beyond `acc` longest first -/
 def hoursScan (acc : Str) : Str → Option (Str × Option Str × Option Str)
@@ -173,7 +146,7 @@ def mdOk (m1 m2 d1 d2 : Char) : Bool := monthOk m1 m2 && dayOk d1 d2
 
 /-- `DT_REGEX.match(s)` → groupdict -/
 def dtRegex (s : Str) : Option Groups :=
-  match stripFinalNewline s with
+  match s with
   | y1 :: y2 :: y3 :: y4 :: m1 :: m2 :: d1 :: d2 :: r =>
     if isAsciiDigit y1 && isAsciiDigit y2 && isAsciiDigit y3 && isAsciiDigit y4 && mdOk m1 m2 d1 d2 then
       let g : Groups := { year := some [y1, y2, y3, y4], month := some [m1, m2], day := some [d1, d2] }
@@ -184,7 +157,7 @@ def dtRegex (s : Str) : Option Groups :=
   | _ => none
 
 /-- `TIME_REGEX.match(s)` → groupdict -/
-def tmRegex (s : Str) : Option Groups := timePart {} (stripFinalNewline s)
+def tmRegex (s : Str) : Option Groups := timePart {} s
 
 /-! ### offsets -/
 
@@ -196,15 +169,22 @@ def gmtOffset (hours : Int) (minutes : Nat) : PyM Int :=
     let mag : Int := 60 * hours.natAbs + minutes
     .ok (if hours < 0 then -mag else mag)
 
-/-- `int(v or 0)` for a group matched by `\d\d` -/
-def intOfUDigits (v : Option Str) : PyM Nat :=
+/-- `int(v or 0)` for a group of ASCII digits -/
+def intOfAscii (v : Option Str) : PyM Nat :=
   match v with
   | none => .ok 0
-  | some s => match digitsVal uDigitVal 0 s with
+  | some s => match natOfAscii s with
     | some n => .ok n
     | none => .error .value
 
-/-- `DateTime.parse_gmt_offset(hours, minutes, tz_name)` in minutes -/
+/-- `hours.startswith("-")` for the optional hours text -/
+def startsMinus : Option Str → Bool
+  | some ('-' :: _) => true
+  | _ => false
+
+/-- `DateTime.parse_gmt_offset(hours, minutes, tz_name)` in minutes.  After `gmt_offset`, an hours text that starts
+    with `-` and whose integer value is 0 (`-0`, `-00`, or a zone-table entry of 0 behind `-…`) negates the offset:
+    `int("-0") == 0` has lost the sign `gmt_offset` looks at. -/
 def parseGmtOffset (tzs : List (Str × Int)) (hours minutes name : Option Str) : PyM Int := do
   let h ← match hours with
     | none => pure (0 : Int)
@@ -217,16 +197,9 @@ def parseGmtOffset (tzs : List (Str × Int)) (hours minutes name : Option Str) :
         | some n => match tzs.lookup n with
           | some h => pure h
           | none => .error .value
-  let m ← intOfUDigits minutes
-  gmtOffset h m
-
-/-- `int(v or 0)` for a group of ASCII digits -/
-def intOfAscii (v : Option Str) : PyM Nat :=
-  match v with
-  | none => .ok 0
-  | some s => match natOfAscii s with
-    | some n => .ok n
-    | none => .error .value
+  let m ← intOfAscii minutes
+  let off ← gmtOffset h m
+  pure (if startsMinus hours && h == 0 then -off else off)
 
 def utcTz : Tz := ⟨0, some "UTC".toList⟩
 
